@@ -91,6 +91,7 @@ def gen_plan(seed: int, run: int, tier: str) -> dict:
     tasks["late"] = {"proc": "PL", "late": True, "ops": _good(c03._task_script(rng, g, "late", nobj, shared_running, shared_waiting, used_params, rng.randint(1, 3)))}
     # faults
     faults = []
+    big_records = False
     victims = rng.sample(names, 1 if rng.random() < 0.75 or len(names) < 3 else 2)
     for v in victims:
         nops = len(tasks[v]["ops"])
@@ -110,6 +111,7 @@ def gen_plan(seed: int, run: int, tier: str) -> dict:
             tgt = tasks[v]["ops"][f["op_index"]]
             tasks[v]["ops"][f["op_index"]] = {"op": "set_study_user_attr", "study": "S0", "key": "big" + v, "value": big}
             f["tear"] = frng.choice(["rand", "rand", "last", "mid", "over4k"])
+            big_records = True
     cfg = {
         "deployment": kind,
         "p_line": rng.choice([0.0, 0.01, 0.05]),
@@ -119,6 +121,8 @@ def gen_plan(seed: int, run: int, tier: str) -> dict:
         "grace_period": rng.choice([3, 5, 10, 30]),
         "busy_timeout": 60.0,
     }
+    if big_records:
+        cfg["read_block"] = rng.choice([512, 8192])
     return {"check": ID, "seed": seed, "run": run, "cfg": cfg, "setup": setup, "tasks": tasks, "faults": faults, "sched": {"seed": rng.getrandbits(48)}}
 
 
@@ -321,7 +325,12 @@ def _run(plan: dict, sim: sched.Sim, ch: sched.Chooser, dep: deploy.Deployment) 
         why = "; ".join("%s blocked on %s" % (t.name, t.blocked_why) for t in tasks if not t.done)
         return common.result(sim, ch, "violation", prefix + "deadlock", why + " after crashes %r" % crashes, nontrivial=fired > 0)
     if status == "stepcap":
-        return common.result(sim, ch, "violation", prefix + "no-progress", "step cap: survivors did not finish after crashes %r" % crashes, nontrivial=fired > 0)
+        # liveness is judged in simulated time: survivors that spin in back-off sleeps pile up
+        # virtual seconds; a long but progressing run (big records, small read blocks) does not
+        bound = len(crashes) * (cfg["grace_period"] + 1) + 300.0
+        if sim.now - sim.t0 > bound:
+            return common.result(sim, ch, "violation", prefix + "no-progress", "step cap after %.0f simulated seconds (bound %.0f): survivors did not finish after crashes %r" % (sim.now - sim.t0, bound, crashes), nontrivial=fired > 0)
+        return common.result(sim, ch, "inconclusive", None, "step cap (long run)", nontrivial=fired > 0)
     for t in tasks:
         if t.exc is not None and not isinstance(t.exc, sched.SimKilled):
             raise RuntimeError("task %s died: %r" % (t.name, t.exc)) from t.exc
